@@ -92,6 +92,8 @@ type World struct {
 	RecvDisabled []bool
 	// Grants is the authz model (see authz.go).
 	Grants []*Grant
+	// SentBy maps a history step number to the index of the packet it committed.
+	SentBy map[int]int
 	// Relays remembers every relay message delivered, for verbatim duplicates.
 	Relays []RelayMsg
 }
@@ -122,6 +124,73 @@ func Pick(n, i int) int {
 // transfertypes.ExtractDenomFromPath; they belong to properties C33/C42).
 var SafeNativeDenoms = []string{"ufoo", "atom2", "gamm/pool/1", "ubar", "factory/osmo1abc/tok", "x:y.z_w", "ufoo"}
 
+func pairKey(a, b int) [2]int {
+	if a > b {
+		a, b = b, a
+	}
+	return [2]int{a, b}
+}
+
+// Plan expands a Spec into the links NewWorld creates, in creation order: an alias link whose
+// chain pair has no v1 transfer channel yet gets one created first; an alias refers to the most
+// recent v1 channel of its pair and takes over its orientation. Generators use Plan to address
+// routes without a world.
+func (spec Spec) Plan() []LinkSpec {
+	n := spec.Chains
+	if n < 2 {
+		n = 2
+	}
+	if n > 3 {
+		n = 3
+	}
+	var out []LinkSpec
+	last := map[[2]int]LinkSpec{}
+	has := map[[2]int]bool{}
+	for _, ls := range spec.Links {
+		a, b := Pick(n, ls.A), Pick(n, ls.B)
+		if a == b {
+			b = (a + 1) % n
+		}
+		switch Pick(3, ls.K) {
+		case KV1:
+			l := LinkSpec{KV1, a, b}
+			out = append(out, l)
+			last[pairKey(a, b)], has[pairKey(a, b)] = l, true
+		case KV2:
+			out = append(out, LinkSpec{KV2, a, b})
+		case KAlias:
+			if !has[pairKey(a, b)] {
+				l := LinkSpec{KV1, a, b}
+				out = append(out, l)
+				last[pairKey(a, b)], has[pairKey(a, b)] = l, true
+			}
+			base := last[pairKey(a, b)]
+			out = append(out, LinkSpec{KAlias, base.A, base.B})
+		}
+	}
+	return out
+}
+
+// PlannedRoute is a route leaving a chain, as RoutesFrom will list it.
+type PlannedRoute struct {
+	K    int // link kind
+	Peer int // destination chain
+}
+
+// PlanRoutes mirrors World.RoutesFrom for chain c.
+func (spec Spec) PlanRoutes(c int) []PlannedRoute {
+	var out []PlannedRoute
+	for _, l := range spec.Plan() {
+		if l.A == c {
+			out = append(out, PlannedRoute{l.K, l.B})
+		}
+		if l.B == c {
+			out = append(out, PlannedRoute{l.K, l.A})
+		}
+	}
+	return out
+}
+
 // NewWorld builds the chains, links, funds the tracked accounts and initialises the model.
 func NewWorld(outer *testing.T, spec Spec) *World {
 	if spec.Chains < 2 {
@@ -130,58 +199,36 @@ func NewWorld(outer *testing.T, spec Spec) *World {
 	if spec.Chains > 3 {
 		spec.Chains = 3
 	}
-	w := &World{World: sim.NewWorld(outer, spec.Chains, nil), Spec: spec, endIdx: map[string]*End{}}
+	w := &World{World: sim.NewWorld(outer, spec.Chains, nil), Spec: spec, endIdx: map[string]*End{}, SentBy: map[int]int{}}
 	w.Fund = spec.Fund
 	if w.Fund <= 0 {
 		w.Fund = 1_000_000
 	}
 	n := spec.Chains
 	w.RecvDisabled = make([]bool, n)
-	v1of := map[[2]int]*sim.Link{}
-	pairKey := func(a, b int) [2]int {
-		if a > b {
-			a, b = b, a
-		}
-		return [2]int{a, b}
-	}
-	mkV1 := func(a, b int) *sim.Link {
+	var lastV1 = map[[2]int]*sim.Link{}
+	for _, pl := range spec.Plan() {
 		var l *sim.Link
-		sim.Guard("transfer channel setup", func() {
-			p := ibctesting.NewTransferPath(w.Chains[a], w.Chains[b])
-			p.Setup()
-			l = &sim.Link{Idx: len(w.Links), Kind: sim.V1Unordered, Chain: [2]int{a, b}, Path: p}
-			w.Links = append(w.Links, l)
-		})
-		v1of[pairKey(a, b)] = l
-		return l
-	}
-	for _, ls := range spec.Links {
-		a, b := Pick(n, ls.A), Pick(n, ls.B)
-		if a == b {
-			b = (a + 1) % n
-		}
-		var l *sim.Link
-		switch Pick(3, ls.K) {
+		switch pl.K {
 		case KV1:
-			if ex := v1of[pairKey(a, b)]; ex != nil {
-				// a second v1 channel between the same pair is a distinct channel: allowed
-				l = mkV1(a, b)
-			} else {
-				l = mkV1(a, b)
-			}
-			w.addEnds(l)
+			a, b := pl.A, pl.B
+			sim.Guard("transfer channel setup", func() {
+				p := ibctesting.NewTransferPath(w.Chains[a], w.Chains[b])
+				p.Setup()
+				l = &sim.Link{Idx: len(w.Links), Kind: sim.V1Unordered, Chain: [2]int{a, b}, Path: p}
+				w.Links = append(w.Links, l)
+			})
+			lastV1[pairKey(a, b)] = l
 		case KV2:
-			l = w.AddLink(sim.V2Clients, a, b, nil)
-			w.addEnds(l)
+			l = w.AddLink(sim.V2Clients, pl.A, pl.B, nil)
 		case KAlias:
-			base := v1of[pairKey(a, b)]
+			base := lastV1[pairKey(pl.A, pl.B)]
 			if base == nil {
-				base = mkV1(a, b)
-				w.addEnds(base)
+				vx.Harnessf("plan error: alias without v1 base")
 			}
 			l = w.AddLink(sim.V2Alias, base.Chain[0], base.Chain[1], base)
-			w.addEnds(l)
 		}
+		w.addEnds(l)
 	}
 	// native denominations and funding
 	w.Native = make([][]string, n)
@@ -201,8 +248,9 @@ func NewWorld(outer *testing.T, spec Spec) *World {
 			seen[d] = true
 			w.Native[i] = append(w.Native[i], d)
 		}
-		if len(w.Native[i]) == 0 {
-			w.Native[i] = []string{"ufoo"}
+		if !seen["ufoo"] {
+			// ibctesting's genesis gives every account its secondary denom "ufoo": always native
+			w.Native[i] = append(w.Native[i], "ufoo")
 		}
 		var coins sdk.Coins
 		for _, d := range w.Native[i] {
